@@ -24,7 +24,8 @@ Print Assumptions C07_auto_detect_text.
 
 (* the auto-detecting reader reads back the npy output *)
 Theorem C07_read_back_npy : forall sh vals,
-  file_ok sh vals -> read_spectrum (write_npy sh vals) = inl (sh, vals).
+  file_ok sh vals -> existsb (N.eqb 0) sh = false ->
+  read_spectrum (write_npy sh vals) = inl (sh, vals).
 Proof. exact (@read_spectrum_npy). Qed.
 Print Assumptions C07_read_back_npy.
 
